@@ -1205,6 +1205,38 @@ def run_units(env, rng, n):
 # --------------------------------------------------------------------------------------------------
 # external sequence producer through ZSTD_compress2
 
+def producer_huge_lengths(env):
+    """fixed corpus: a registered producer whose reported lengths reach or pass 2^32 (a wrapped trailing literal count,
+    a literals-only block of 0xFFFFFFFF, two matches of 2^31): ZSTD_compress2 must come back - an error code, or with the
+    fallback a frame that decodes to the source - never crash"""
+    x = (b"abcdefgh" * 600)[:4096]
+    scripts = ["S8:32:40,0:4294967280:0", "S0:4294967295:0,0:1:0", "S8:32:40,0:4294967295:0", "S8:32:40,8:0:2147483648,8:0:2147483648,0:4024:0",
+               "S8:4294967295:40,0:4024:0", "S8:32:4294967295,0:4024:0"]
+    lines, meta = [], {}
+    for fb in (0, 1):
+        for val in (0, 1):
+            for j, sc in enumerate(scripts):
+                p = {"level": 1, "maxBlockSize": 4096, "windowLog": 12, "minMatch": 4, "validateSequences": val, "seqProducerFallback": fb, "blockSplitter": 2}
+                i = "h%d.%d.%d" % (fb, val, j)
+                meta[i] = (p, sc)
+                lines.append("P %s %s %s %s 0" % (i, codec.params_str(p), sc, codec.hx(x)))
+    out, crashes = env.impl(lines)
+    for i, rc, err in crashes:
+        p, sc = meta.get(i, ({}, "?"))
+        env.report(dict(kind="producer", params=p, script=sc, input_hex=x.hex(), rc=rc, stderr=str(err)[-400:]),
+                   "ZSTD_compress2 with a sequence producer reporting lengths that pass 2^32 (%s, fallback %s, validate %s) did not come back: harness terminated with status %s"
+                   % (sc, p.get("seqProducerFallback"), p.get("validateSequences"), rc), key=None)
+    for i, (p, sc) in meta.items():
+        r = out.get(i)
+        if r is None:
+            continue
+        t = r.split(" ")
+        if t[0] == "OK" and "d=ok" not in r:
+            env.report(dict(kind="producer", params=p, script=sc, input_hex=x.hex(), result=r[:300]),
+                       "ZSTD_compress2 accepted producer lengths that pass 2^32 (%s) and emitted a frame that does not decode to the source" % sc)
+        env.ctx.count(("producer-huge", t[0], p["seqProducerFallback"], p["validateSequences"]), nontrivial=True)
+
+
 def run_producer(env, rng, n):
     ctx = env.ctx
     cases = []
@@ -1272,7 +1304,7 @@ def run_producer(env, rng, n):
             else:
                 # corrupted answer
                 seqs = s + [(0, tail, 0)]
-                how = rng.choice(["off", "ml", "sum", "middelim", "toolong"])
+                how = rng.choice(["off", "ml", "sum", "middelim", "toolong", "huge", "huge"])
                 if how == "off" and s:
                     k = rng.randrange(len(s))
                     o, l, m = s[k]
@@ -1284,6 +1316,17 @@ def run_producer(env, rng, n):
                     seqs[k] = (o, l + (m - 2), 2)
                 elif how == "sum":
                     seqs[-1] = (0, tail + rng.choice([1, 2, 100]), 0)
+                elif how == "huge":
+                    # lengths whose sum reaches or passes 2^32 (a 32-bit running sum would wrap back to a plausible value)
+                    v = rng.choice(["ff", "m16", "wrap", "first"])
+                    if v == "ff":
+                        seqs[-1] = (0, 0xFFFFFFFF, 0)
+                    elif v == "m16":
+                        seqs[-1] = (0, (tail - 16) & 0xFFFFFFFF if tail < 16 else 0xFFFFFFF0, 0)
+                    elif v == "wrap":
+                        seqs = seqs[:-1] + [(1, 0, 1 << 31), (1, 0, 1 << 31), (0, tail, 0)]
+                    else:
+                        seqs = [(0, 0xFFFFFFFF, 0)] + seqs
                 elif how == "middelim" and len(s) >= 2:
                     seqs.insert(rng.randrange(1, len(s)), (0, 0, 0))
                 else:
@@ -1506,6 +1549,7 @@ def run(ctx):
     run_q(env, cor)
     gq = run_generate(env, rng, 12 if quick else 100)
     run_q(env, gq)
+    producer_huge_lengths(env)
     run_producer(env, rng, 60 if quick else 600)
     ctx.notes["origins"] = {}
     for c in cases + cor + gq:
